@@ -1,14 +1,200 @@
 import Driver.Proto
-/-! Driver sub-command `neutron` (stub – filled in by its cluster). -/
+import PtVerif.Model.Neutron
+import PtVerif.Model.NeutronD2O
+import Std.Data.HashMap
+/-! Driver sub-command `neutron`: the neutron models (C03, C04, C16, C17) at `Float`.
+
+Table lines (no reply): `me f` · `mass z a f` · `rec z a bc absorption total nd` ·
+`tab z a n (λ re im)*`.  Every other line gets exactly one `R …` reply. -/
 namespace Driver.NeutronCmd
-open Driver
+open PtModel PtModel.Neutron PtNum Driver
 
 structure St where
-  dummy : Unit := ()
+  mass : Std.HashMap (Nat × Nat) Float := {}
+  recs : Std.HashMap (Nat × Nat) (NRec Float) := {}
+  me : Float := 0
 
 def init : St := {}
 
+def St.tbl (st : St) : Tbl Float :=
+  { recOf := fun z a => st.recs.get? (z, a)
+    mass := fun z a => (st.mass.get? (z, a)).getD (0.0 / 0.0)
+    me := st.me }
+
+/-! a tiny token parser -/
+abbrev P := StateT Toks Option
+
+def tok : P String := fun ts => match ts with | t :: r => some (t, r) | [] => none
+def pF : P Float := do let t ← tok; (readF t : Option Float)
+def pN : P Nat := do let t ← tok; (natTok t : Option Nat)
+def pI : P Int := do let t ← tok; (intTok t : Option Int)
+def kw (s : String) : P Unit := do let t ← tok; if t == s then pure () else failure
+def pEnd : P Unit := fun ts => match ts with | [] => some ((), []) | _ => none
+
+def pRep {β : Type} (n : Nat) (p : P β) : P (List β) :=
+  match n with
+  | 0 => pure []
+  | n + 1 => do let x ← p; let r ← pRep n p; pure (x :: r)
+
+def pAtom : P Atom := do let z ← pN; let a ← pN; let q ← pI; pure ⟨z, a, q⟩
+def pEntry : P (Atom × Float) := do let x ← pAtom; let c ← pF; pure (x, c)
+/-- `n (z a q c)*n` -/
+def pAtoms : P (List (Atom × Float)) := do let n ← pN; pRep n pEntry
+def pNode : P (Float × Cx Float) := do let x ← pF; let re ← pF; let im ← pF; pure (x, (re, im))
+def pNodes : P (List (Float × Cx Float)) := do let n ← pN; pRep n pNode
+def pFloats : P (List Float) := do let n ← pN; pRep n pF
+def pCompound : P (Compound Float) := do let d ← pF; let a ← pAtoms; pure ⟨a, d⟩
+
+def showScat (s : Scat Float) : String :=
+  " ".intercalate ([s.sldRe, s.sldIm, s.sldInc, s.coh, s.abs, s.inc, s.pen].map showF)
+
+def showOutcome : Outcome Float → String
+  | .missing => "missing"
+  | .vacuum => "vacuum"
+  | .ok s => "ok " ++ showScat s
+
+def showNodes (l : List (Float × Cx Float)) : String :=
+  s!"nodes {l.length} " ++ " ".intercalate (l.map fun n => s!"{showF n.1} {showF n.2.1} {showF n.2.2}")
+
+def showSld3 : Option (Sld3 Float) → String
+  | none => "none"
+  | some (a, b, c) => s!"ok {showF a} {showF b} {showF c}"
+
+def showCompound (c : Compound Float) : String :=
+  s!"cmp {showF c.density} {c.atoms.length} " ++ showAList c.atoms
+
+/-- run a parser on the rest of the line and reply with its result -/
+def answer (st : St) (ts : Toks) (p : P String) : IO St := do
+  match (do let r ← p; pEnd; pure r).run ts with
+  | some (s, _) => reply s
+  | none => reply "ERR bad-op"
+  pure st
+
 def handle (st : St) : Toks → IO St
+  | ["reset"] => pure {}
+  | ["me", m] =>
+    match readF m with
+    | some m => pure { st with me := m }
+    | none => do reply "ERR bad-op"; pure st
+  | ["mass", z, a, m] =>
+    match natTok z, natTok a, readF m with
+    | some z, some a, some m => pure { st with mass := st.mass.insert (z, a) m }
+    | _, _, _ => do reply "ERR bad-op"; pure st
+  | "rec" :: ts =>
+    match (do let z ← pN; let a ← pN; let bc ← pF; let ab ← pF; let tot ← pF; let nd ← pF; pEnd
+              pure (z, a, (⟨bc, ab, tot, nd, none⟩ : NRec Float))).run ts with
+    | some ((z, a, r), _) => pure { st with recs := st.recs.insert (z, a) r }
+    | none => do reply "ERR bad-op"; pure st
+  | "tab" :: ts =>
+    match (do let z ← pN; let a ← pN; let l ← pNodes; pEnd; pure (z, a, l)).run ts with
+    | some ((z, a, l), _) =>
+      match st.recs.get? (z, a), gridOfList l with
+      | some r, some g => pure { st with recs := st.recs.insert (z, a) { r with table := some g } }
+      | _, _ => do reply "ERR bad-op"; pure st
+    | none => do reply "ERR bad-op"; pure st
+  | "consts" :: ts => answer st ts do
+      pure s!"consts {showF (PtGen.ABSORPTION_WAVELENGTH : Float)} {showF (PtGen.ENERGY_FACTOR : Float)} {showF (PtGen.VELOCITY_FACTOR : Float)} {showF (PtGen.FOUR_PI_100 : Float)} {showF (PtGen.avogadro_number : Float)}"
+  | "conv" :: "wl" :: ts => answer st ts do let e ← pF; pure (showF (neutronWavelength e))
+  | "conv" :: "en" :: ts => answer st ts do let w ← pF; pure (showF (neutronEnergy w))
+  | "conv" :: "wv" :: ts => answer st ts do let v ← pF; pure (showF (neutronWavelengthFromVelocity v))
+  | "interp" :: ts => answer st ts do
+      let x ← pF; let l ← pNodes
+      match gridOfList l with
+      | some g => let y := interpClamp g x; pure s!"{showF y.1} {showF y.2}"
+      | none => pure "ERR empty"
+  | "edtab" :: ts => answer st ts do
+      let n ← pN
+      let rows ← pRep n (do let e ← pF; let re ← pF; let im ← pF; pure (e, re, im))
+      pure (showNodes (edNodes rows))
+  | "lunat" :: ts => answer st ts do
+      let re ← pF; let im ← pF; let a5 ← pF; let a6 ← pF; let l ← pNodes
+      pure (showNodes (luNatural (re, im) a5 a6 l))
+  | "bcc" :: ts => answer st ts do
+      let z ← pN; let a ← pN
+      match st.recs.get? (z, a) with
+      | some r => pure s!"{showF r.bcComplex.1} {showF r.bcComplex.2}"
+      | none => pure "missing"
+  | "sbw" :: ts => answer st ts do
+      let z ← pN; let a ← pN; let w ← pF
+      match st.recs.get? (z, a) with
+      | some r => let bs := scatteringByWavelength r w; pure s!"{showF bs.1.1} {showF bs.1.2} {showF bs.2}"
+      | none => pure "missing"
+  | "scat" :: ts => answer st ts do
+      let d ← pF; let w ← pF; let ats ← pAtoms
+      pure (showOutcome (neutronScattering st.tbl ats d w))
+  | "scats" :: d :: w :: rest =>
+    -- nested structure: `Items.atoms` (C02's model of `Formula.atoms`) then the calculation
+    match readF d, readF w, readItems rest with
+    | some d, some w, some (s, []) => do
+      reply (showOutcome (neutronScattering st.tbl s.atoms d w)); pure st
+    | _, _, _ => do reply "ERR bad-op"; pure st
+  | "scate" :: ts => answer st ts do
+      let d ← pF; let e ← pF; let ats ← pAtoms
+      pure (showOutcome (neutronScatteringE st.tbl ats d e))
+  | "scatd" :: ts => answer st ts do
+      let d ← pF; let ats ← pAtoms
+      pure (showOutcome (neutronScatteringDefault st.tbl ats d))
+  | "scatv" :: ts => answer st ts do
+      let d ← pF; let ws ← pFloats; let ats ← pAtoms
+      match neutronScatteringV st.tbl ats d ws with
+      | .missing => pure "missing"
+      | .vacuum => pure "vacuum"
+      | .ok l => pure (s!"okv {l.length} " ++ " ".intercalate (l.map showScat))
+  | "atom" :: ts => answer st ts do
+      let z ← pN; let a ← pN; let w ← pF
+      match atomScattering st.tbl z a w with
+      | some s => pure ("ok " ++ showScat s)
+      | none => pure "missing"
+  | "ndens" :: ts => answer st ts do let r ← pF; let m ← pF; pure (showF (numberDensityOf r m))
+  | "isodens" :: ts => answer st ts do
+      let r ← pF; let mi ← pF; let m ← pF; pure (showF (isotopeDensity r mi m))
+  | "comp" :: ts => answer st ts do
+      let d ← pF; let w ← pF; let wts ← pFloats; let k ← pN; let ms ← pRep k pAtoms
+      match compositeSld st.tbl ms w wts d with
+      | .missing => pure "missing"
+      | .zeros => pure "zeros"
+      | .ok a b c => pure s!"ok {showF a} {showF b} {showF c}"
+  | "compv" :: ts => answer st ts do
+      let d ← pF; let ws ← pFloats; let wts ← pFloats; let k ← pN; let ms ← pRep k pAtoms
+      match compositeSldV st.tbl ms ws wts d with
+      | .missing => pure "missing"
+      | .zeros => pure "zeros"
+      | .ok l =>
+        pure (s!"okv {l.length} " ++ " ".intercalate (l.map fun (a, b, c) => s!"{showF a} {showF b} {showF c}"))
+  | "replace" :: ts => answer st ts do
+      let s ← pAtom; let t ← pAtom; let p ← pF; let c ← pCompound
+      pure (showCompound (replace st.tbl.atomMass c s t p))
+  | "replace2" :: ts => answer st ts do
+      let d ← pF; let c ← pCompound
+      pure (showCompound (substituted st.tbl.atomMass c d))
+  | "water" :: ts => answer st ts do
+      let h ← pAtom; let nd ← pF
+      pure (showCompound (water st.tbl h nd))
+  | "d2oslds" :: ts => answer st ts do
+      let w ← pF; let c ← pCompound
+      match d2oSlds st.tbl c w with
+      | none => pure "none"
+      | some (a, b, h, d) =>
+        pure ("ok " ++ " ".intercalate ([a, b, h, d].map fun (x, y, z) => s!"{showF x} {showF y} {showF z}"))
+  | "d2osld" :: ts => answer st ts do
+      let w ← pF; let vf ← pF; let f ← pF; let c ← pCompound
+      pure (showSld3 (d2oSld st.tbl c w vf f))
+  | "d2omatch" :: ts => answer st ts do
+      let w ← pF; let c ← pCompound
+      match d2oMatch st.tbl c w with
+      | none => pure "none"
+      | some (f, s) => pure s!"ok {showF f} {showF s}"
+  | "moldens" :: ts => answer st ts do let m ← pF; let v ← pF; pure (showF (moleculeDensity m v))
+  | "mol" :: ts => answer st ts do
+      let c ← pCompound
+      match molecule st.tbl c with
+      | none => pure "none"
+      | some m => pure s!"ok {showF m.sld} {showF m.dsld} {showF m.d2oMatch}"
+  | "mold2o" :: ts => answer st ts do
+      let vf ← pF; let f ← pF; let c ← pCompound
+      match moleculeD2Osld st.tbl c vf f with
+      | none => pure "none"
+      | some x => pure s!"ok {showF x}"
   | _ => do reply "ERR bad-op"; pure st
 
 end Driver.NeutronCmd
